@@ -102,17 +102,28 @@ func (rootHandler) ServeDNS(w dns.ResponseWriter, req *dns.Msg) {
 
 func startServer() {
 	srvOnce.Do(func() {
-		pc, err := net.ListenPacket("udp", "127.0.0.1:0")
-		if err != nil {
-			panic(err)
+		// the same port on UDP and TCP; other harnesses run on this host, so retry
+		for try := 0; ; try++ {
+			pc, err := net.ListenPacket("udp", "127.0.0.1:0")
+			if err != nil {
+				if try > 50 {
+					panic(err)
+				}
+				continue
+			}
+			ln, err := net.Listen("tcp", pc.LocalAddr().String())
+			if err != nil {
+				_ = pc.Close()
+				if try > 50 {
+					panic(err)
+				}
+				continue
+			}
+			srvAddr = pc.LocalAddr().String()
+			go func() { _ = (&dns.Server{PacketConn: pc, Handler: rootHandler{}}).ActivateAndServe() }()
+			go func() { _ = (&dns.Server{Listener: ln, Handler: rootHandler{}}).ActivateAndServe() }()
+			return
 		}
-		srvAddr = pc.LocalAddr().String()
-		ln, err := net.Listen("tcp", srvAddr)
-		if err != nil {
-			panic(err)
-		}
-		go func() { _ = (&dns.Server{PacketConn: pc, Handler: rootHandler{}}).ActivateAndServe() }()
-		go func() { _ = (&dns.Server{Listener: ln, Handler: rootHandler{}}).ActivateAndServe() }()
 	})
 }
 
@@ -460,6 +471,13 @@ func (s *sim) run(sp *runSpec) string {
 	before := resolver.VerifC09RefreshCounters()
 	resolver.VerifC09AutoTA(s.r)
 	after := resolver.VerifC09RefreshCounters()
+	for attempt := 0; attempt < 3 && (after[2] != before[2] || after[3] != before[3]); attempt++ {
+		// the loopback exchange itself failed (lost datagram on a loaded
+		// host): nothing was written yet, so the refresh is simply repeated
+		before = resolver.VerifC09RefreshCounters()
+		resolver.VerifC09AutoTA(s.r)
+		after = resolver.VerifC09RefreshCounters()
+	}
 	cur.Store(nil)
 	s.lastRevokedDelta = after[6] - before[6]
 
